@@ -293,6 +293,7 @@ swapped rounds and a flipped proof bit are rejected. distinct = (width, height, 
     let stride = if tier == "miri" { 1 } else { 1 };
     let reps = match tier {
         "thorough" => 32,
+        "quick" => 8,
         _ => 1,
     };
     let shapes_ref = &shapes;
